@@ -32,6 +32,13 @@ def match(known, prop, rec):
             elif not _glob(pat, val):
                 ok = False
                 break
+        if ok and m.get("reader_pairs_allowed") is not None:
+            # every (reading query <- culprit cache entry) pair of the violation must be one that the finding is known to involve:
+            # a *new* reader of a by-design approximate entry is a new violation
+            pairs = attr.get("reader_pairs") or []
+            allowed = m["reader_pairs_allowed"]
+            if not pairs or not all(any(_glob(pat, p_) for pat in allowed) for p_ in pairs):
+                ok = False
         if ok:
             return kf["id"]
     return None
